@@ -46,6 +46,10 @@ pub enum VOp {
 pub enum TOp {
     V(VOp),
     Rollback,
+    /// drop a subscriber while the transaction is open
+    DropSub(u8),
+    /// poll a subscriber once while the transaction is open (nothing of it may be visible)
+    Poll(u8),
 }
 
 #[derive(Clone, Copy, Debug, Serialize, Deserialize, PartialEq, Eq, Hash)]
